@@ -2,6 +2,7 @@
 import Lcapy.Model.Cache
 import Lcapy.Model.CacheAux
 import Lcapy.Model.SymReg
+import Lcapy.Model.Alias
 import Lcapy.Spec.Cache
 import Lcapy.Generated.Caches
 namespace Lcapy.Driver.C16
@@ -233,6 +234,27 @@ def handle (toks : List String) : Option String :=
       match parseSymOps rest with
       | none => "bad-op"
       | some ops => toString (SymReg.stableOver ops ((ns.splitOn ",").filter (· ≠ "-")))
+  | "c16.alias" :: c :: d :: a :: rest => some <|
+      -- derivations from a kept expression with assumptions (causal, dc, ac): `c` = always-causal class, `n` = other
+      let copies := Gen.Caches.argAliasMutations.isEmpty
+      let b (t : String) : Bool := t == "1"
+      let h0 : Alias.Heap := ⟨[⟨b c, b d, b a⟩]⟩
+      let src : Alias.ExprRef := ⟨0⟩
+      let ds : List Bool := (rest.filter (· ≠ ";")).map (fun t => t == "c")
+      let (hN, outs) := ds.foldl (fun (acc : Alias.Heap × List String) ac =>
+        let r := Alias.derive copies acc.1 src ac
+        let f := r.1.get r.2.ass
+        (r.1, acc.2 ++ [s!"{if f.causal then 1 else 0}{if f.dc then 1 else 0}{if f.ac then 1 else 0}"])) (h0, [])
+      let f := hN.get 0
+      s!"src={if f.causal then 1 else 0}{if f.dc then 1 else 0}{if f.ac then 1 else 0} derived={if outs.isEmpty then "-" else ",".intercalate outs}"
+  | "c16.renumber" :: rest => some <|
+      -- a sequence of `renumber()` calls in one process: node lists separated by `;`
+      let mutableDefault := !Gen.Caches.mutableDefaults.isEmpty
+      let calls := (splitAt ";" rest).filter (· ≠ [])
+      let outs := Alias.callsS mutableDefault ⟨[]⟩ calls
+      " ; ".intercalate (outs.map (fun o => match o with
+        | none => "raise"
+        | some m => if m.isEmpty then "-" else ",".intercalate (m.map (fun p => s!"{p.1}>{p.2}"))))
   | ["c16.symcfg"] => some s!"deleteCleansKinds={symCfg.deleteCleansKinds} restoreOnError={symCfg.restoreOnError} share={Gen.Caches.contextsShareSymbols}"
   | "c16.line" :: rest => some <|
       match parseLine rest with
